@@ -32,6 +32,9 @@ type Grid struct {
 	Res       int64
 	Deep      uint
 	Dyadic    bool // float arithmetic on pixel centres is exact (synthetic grids)
+	// Bias: feed the implementation floats that still read back as the same integers (FromGeomOrd truncates) but
+	// carry a fraction of 0.6 integer units, as decimal input data does; the model keeps the integers
+	Bias bool
 }
 
 type fakeCRS struct{}
@@ -127,6 +130,34 @@ func polyToFloat(p [][]Pt) (geom.Polygon, bool) {
 	return out, ok
 }
 
+func (g *Grid) toFloatPoly(p [][]Pt) (geom.Polygon, bool) {
+	if g.Bias {
+		return polyToFloatBias(p)
+	}
+	return polyToFloat(p)
+}
+
+// polyToFloatBias: as polyToFloat, but every ordinate gets 0.6 integer units of fraction where a float with that
+// fraction exists and truncates back to the same integer.
+func polyToFloatBias(p [][]Pt) (geom.Polygon, bool) {
+	out, ok := polyToFloat(p)
+	for i := range out {
+		for j := range out[i] {
+			for ax := 0; ax < 2; ax++ {
+				o := p[i][j][ax]
+				f := (float64(o) + 0.6) / 1e10
+				if o < 0 {
+					f = (float64(o) - 0.6) / 1e10 // truncation is toward zero
+				}
+				if intgeom.FromGeomOrd(f) == o {
+					out[i][j][ax] = f
+				}
+			}
+		}
+	}
+	return out, ok
+}
+
 // centreOf maps a returned float back to the unique integer pixel centre c of the level with ToGeomOrd(c) == f.
 func (g *Grid) centreOf(level uint, axis int, f float64) (int64, bool) {
 	span := g.Span(level)
@@ -203,7 +234,7 @@ func asOG(e error, target *pointindex.OutsideGridError) bool {
 
 // runSnap calls the implementation with panic recovery and a watchdog.
 func runSnap(g *Grid, poly [][]Pt, ids []int, cfg snap.Config, timeout time.Duration) *Result {
-	fp, _ := polyToFloat(poly)
+	fp, _ := g.toFloatPoly(poly)
 	return runSnapFloat(g, fp, ids, cfg, timeout)
 }
 
@@ -333,8 +364,11 @@ func panicTerm(k string) string {
 func caseJSON(g *Grid, poly [][]Pt, ids []int, cfg snap.Config, r *Result) map[string]any {
 	m := map[string]any{"grid": g.Name, "grid_int": map[string]any{"ext": g.Ext, "res": g.Res, "deep": g.Deep, "level_diff": g.LevelDiff},
 		"polygon_int_1e-10": poly, "ids": ids, "config": cfgJSON(cfg)}
-	if fp, ok := polyToFloat(poly); ok {
+	if fp, ok := g.toFloatPoly(poly); ok {
 		m["polygon"] = fp
+	}
+	if g.Bias {
+		m["float_fraction"] = "every ordinate carries 0.6e-10 of fraction (truncated away by FromGeomOrd)"
 	}
 	if r != nil {
 		if r.Panic != "" {
